@@ -3,7 +3,7 @@
 
 One connection, any number of callers (`ClientConn.roundTrip` calls).  Every `roundTrip` owns one
 `clientStream` object; the model identifies the object with the caller's index, so the stream
-table `cc.streams : id ↦ *clientStream` is `streams : List (Sid × Caller)`.
+table `cc.streams : id ↦ *clientStream` is `streams : List (Nat × Caller)`.
 
 State = the `cc.mu`-guarded fields that decide routing and admission (`streams`, `nextStreamID`,
 `streamsReserved`, `pendingRequests`, `maxConcurrentStreams`, `goAway`, `closed`, `doNotReuse`),
@@ -59,18 +59,18 @@ deriving DecidableEq, Repr
 
 /-- Frames from the peer (`tag` = ghost identity of the payload). `eof` = read error. -/
 inductive Frame where
-  | headers (id : Sid) (kind : HKind) (fin : Bool) (tag : Nat)
-  | data (id : Sid) (len : Nat) (fin : Bool) (tag : Nat)
-  | rst (id : Sid) (code : Nat)
-  | windowUpdate (id : Sid) (overflow : Bool)
-  | pushPromise (id : Sid)
-  | goAway (last : Sid) (code : Nat)
+  | headers (id : Nat) (kind : HKind) (fin : Bool) (tag : Nat)
+  | data (id : Nat) (len : Nat) (fin : Bool) (tag : Nat)
+  | rst (id : Nat) (code : Nat)
+  | windowUpdate (id : Nat) (overflow : Bool)
+  | pushPromise (id : Nat)
+  | goAway (last : Nat) (code : Nat)
   | settings (maxConc : Option Nat)
   | eof
 deriving DecidableEq, Repr
 
 /-- The stream a frame is addressed to (what the read loop passes to `streamByID`). -/
-def Frame.sid? : Frame → Option Sid
+def Frame.sid? : Frame → Option Nat
   | .headers id _ _ _ => some id
   | .data id _ _ _ => some id
   | .rst id _ => some id
@@ -89,7 +89,7 @@ deriving DecidableEq, Repr
 
 /-- One delivery by the read loop to a stream object. -/
 structure Item where
-  sid : Sid      -- stream id of the frame it came from
+  sid : Nat      -- stream id of the frame it came from
   seq : Nat      -- position of that frame in `rx`
   tag : Nat
   what : What
@@ -117,7 +117,7 @@ deriving DecidableEq, Repr
 structure CS where
   phase : Phase := .idle
   resv : Bool := false          -- ghost: holds a reservation made by ReserveNewRequest
-  id : Sid := 0
+  id : Nat := 0
   isHead : Bool := false
   upload : Bool := false        -- has a request body that stalls on flow control
   blocked : Bool := false       -- sleeps in awaitFlowControl
@@ -147,13 +147,13 @@ def upd {β : Type} (f : Nat → β) (k : Nat) (v : β) : Nat → β := fun x =>
 
 structure St where
   cs : Caller → CS := fun _ => {}
-  streams : List (Sid × Caller) := []     -- cc.streams
+  streams : List (Nat × Caller) := []     -- cc.streams
   nextId : Nat := 1                        -- cc.nextStreamID
   reserved : Nat := 0                      -- cc.streamsReserved
   pendingReq : Nat := 0                    -- cc.pendingRequests
   maxConc : Nat := 100                     -- cc.maxConcurrentStreams
   seenSettings : Bool := false
-  goAway : Option (Sid × Nat) := none     -- (LastStreamID, ErrCode)
+  goAway : Option (Nat × Nat) := none     -- (LastStreamID, ErrCode)
   closed : Bool := false
   doNotReuse : Bool := false
   hdrMu : Option Caller := none            -- who holds reqHeaderMu
@@ -163,8 +163,8 @@ structure St where
   rl : Option (Frame × Option Caller) := none  -- frame being processed, looked-up stream
   readerDead : Bool := false
   rx : List Frame := []                    -- ghost: frames read, oldest first
-  hdrWire : List Sid := []                 -- ghost: HEADERS written, oldest first
-  rstWire : List (Sid × Nat) := []         -- ghost: RST_STREAM written (id, code), oldest first
+  hdrWire : List Nat := []                 -- ghost: HEADERS written, oldest first
+  rstWire : List (Nat × Nat) := []         -- ghost: RST_STREAM written (id, code), oldest first
   goAwaySent : Option Nat := none          -- connection error code sent to the peer
   forgetPanic : Bool := false              -- "forgetting unknown stream id"
 
@@ -277,12 +277,12 @@ def setGoAway (s : St) (last code : Nat) : St :=
       else abortLocked acc p.2 (if p.1 = 1 ∧ merged ≠ 0 then .goAwayFatal else .goAwayRetry)) s1
 
 /-- `rl.streamByID(id)` -/
-def streamByID (s : St) (id : Sid) : Option Caller :=
+def streamByID (s : St) (id : Nat) : Option Caller :=
   match s.streams.lookup id with
   | some k => if (s.cs k).readAborted then none else some k
   | none => none
 
-def processHeaders (s : St) (k : Caller) (sid : Sid) (kind : HKind) (fin : Bool) (tag seq : Nat) : St :=
+def processHeaders (s : St) (k : Caller) (sid : Nat) (kind : HKind) (fin : Bool) (tag seq : Nat) : St :=
   let c := s.cs k
   if c.readClosed then endStreamError s k .proto
   else if !c.pastHeaders then
@@ -306,7 +306,7 @@ def processHeaders (s : St) (k : Caller) (sid : Sid) (kind : HKind) (fin : Bool)
       else if kind != .noStatus then readerCleanup s1 (some 1)
       else endStream (setCS s1 k (logItem (s1.cs k) ⟨sid, seq, tag, .trailers⟩)) k sid seq tag
 
-def processData (s : St) (k : Caller) (sid : Sid) (len : Nat) (fin : Bool) (tag seq : Nat) : St :=
+def processData (s : St) (k : Caller) (sid : Nat) (len : Nat) (fin : Bool) (tag seq : Nat) : St :=
   let c := s.cs k
   if c.readClosed then endStreamError s k .proto
   else if !c.pastHeaders then endStreamError s k .proto
